@@ -22,6 +22,8 @@ JudgeEvent(e) ==
     [] e.kind = "sensitize" -> Judge_sensitize(e)
     [] e.kind = "sensitivity_transform" -> Judge_sensitivity_transform(e)
     [] e.kind = "sensitivity_props" -> Judge_sensitivity_props(e)
+    [] e.kind = "acyclic_unroll_cyclic" -> Judge_acyclic_unroll_cyclic(e)
+    [] e.kind = "supergates" -> Judge_supergates(e)
     [] e.kind = "cnf"          -> Judge_cnf(e)
     [] e.kind = "solve"        -> Judge_solve(e)
     [] e.kind = "model_count"  -> Judge_model_count(e)
